@@ -31,9 +31,12 @@ import (
 // ------------------------------------------------------------------------------------------------ sub-process
 
 type request struct {
-	Op   string `json:"op"` // Connect | Dial | Recv | Finish
-	Cls  string `json:"cls,omitempty"`
-	Seed int64  `json:"seed"`
+	Op     string      `json:"op"` // Connect | Dial | Recv | Finish | sequence layer: Univ | SBlocks | SConfirm | Tick
+	Cls    string      `json:"cls,omitempty"`
+	Seed   int64       `json:"seed"`
+	BSeed  int64       `json:"bseed,omitempty"`  // constant within a behaviour: what a block descriptor leaves open is derived from it
+	Blocks []blockDesc `json:"blocks,omitempty"` // SBlocks: the blocks of the message in order; SConfirm: the block confirmed; Univ: the universe
+	Signer string      `json:"signer,omitempty"` // SConfirm
 }
 
 func splitChunk(x []byte, mode int) [][]byte {
@@ -61,15 +64,26 @@ func kib(x uint64) int { return int((x + 1023) / 1024) }
 
 // recv performs one attacker step on connection c and reports what the node did.
 func (n *node) recv(c *conn, cls string, seed int64, limit time.Duration) map[string]interface{} {
+	return n.recvWith(c, cls, seed, limit, func(b *bctx) (plan, bool, error) {
+		p, ok := b.build(cls)
+		return p, ok, nil
+	})
+}
+
+// recvWith: one attacker step whose plan comes from mk (an input class, or a step of the sequence layer).
+func (n *node) recvWith(c *conn, cls string, seed int64, limit time.Duration, mk func(b *bctx) (plan, bool, error)) map[string]interface{} {
 	b := &bctx{n: n, c: c, rng: mrand.New(mrand.NewSource(seed))}
 	// the attacker's own code runs in this process too: a panic while BUILDING the input is a harness failure, never the node's
-	p, ok, perr := func() (p plan, ok bool, perr interface{}) {
+	p, ok, berr, perr := func() (p plan, ok bool, berr error, perr interface{}) {
 		defer func() { perr = recover() }()
-		p, ok = b.build(cls)
+		p, ok, berr = mk(b)
 		return
 	}()
 	if perr != nil {
 		return map[string]interface{}{"error": fmt.Sprintf("building class %s panicked: %v", cls, perr)}
+	}
+	if berr != nil {
+		return map[string]interface{}{"error": fmt.Sprintf("building %s: %v", cls, berr)}
 	}
 	if !ok {
 		return map[string]interface{}{"error": "unknown class " + cls}
@@ -161,11 +175,17 @@ func (n *node) recv(c *conn, cls string, seed int64, limit time.Duration) map[st
 	if busy == nil || quiet {
 		busy = []string{}
 	}
-	return map[string]interface{}{
+	m := map[string]interface{}{
 		"alive": true, "closed": c.srv.isClosed(), "hs": c.hs, "quiet": quiet, "blocked": blocked, "busy": busy,
 		"allocK": kib(m1.TotalAlloc - m0.TotalAlloc), "readK": kib(uint64(atomic.LoadInt64(&c.srv.nread) - read0)),
 		"read": atomic.LoadInt64(&c.srv.nread) - read0, "sent": sent, "wstall": wstall, "resp": c.takeInbox(), "split": mode, "polls": polls, "note": note, "stop": why, "ms": int(time.Since(t0) / time.Millisecond),
 	}
+	// the input as counted by the attacker, and - when nothing of the node runs any more - the manager's out-of-order state
+	m["nblk"], m["nconf"] = countItems(b.sent)
+	if quiet {
+		n.observe(m)
+	}
+	return m
 }
 
 // quiesceOnce: a few polls; returns true when two consecutive snapshots were idle.
@@ -251,6 +271,10 @@ func driveRun(args []string) error {
 				last.blocked = []string{}
 			}
 			m["closed"], m["hs"], m["quiet"], m["blocked"], m["dir"] = c.srv.isClosed(), c.hs, ok, last.blocked, c.dir
+			m["nblk"], m["nconf"] = 0, 0
+			if ok {
+				n.observe(m)
+			}
 			reply(m)
 		case "Recv":
 			if c == nil {
@@ -258,6 +282,22 @@ func driveRun(args []string) error {
 				continue
 			}
 			reply(n.recv(c, rq.Cls, rq.Seed, limit))
+		case "Univ": // the block universe of the sequence layer (from the behaviour's initial state)
+			n.seqInit(rq.BSeed, rq.Blocks)
+			reply(map[string]interface{}{"alive": true})
+		case "SBlocks", "SConfirm", "Tick":
+			if c == nil {
+				reply(map[string]interface{}{"error": rq.Op + " before Connect"})
+				continue
+			}
+			if n.seq == nil {
+				n.seqInit(rq.BSeed, nil)
+			}
+			rq := rq
+			reply(n.recvWith(c, rq.Op, rq.Seed, limit, func(b *bctx) (plan, bool, error) {
+				p, err := n.seqPlan(b, &rq)
+				return p, err == nil, err
+			}))
 		case "Finish":
 			reply(map[string]interface{}{"alive": true})
 			return nil
@@ -294,6 +334,7 @@ type adapter struct {
 	beh    int
 	step   int
 	seed   int64
+	bseed  int64 // constant within a behaviour
 	limit  int
 }
 
@@ -347,8 +388,37 @@ func (a *adapter) Reset(init map[string]tla.Value) (engine.Fields, error) {
 	if err != nil || m["ready"] != true {
 		return nil, fmt.Errorf("node sub-process did not start: %v %v\n%s", err, m, a.errBuf.buf)
 	}
+	// the block universe of the sequence layer is part of the initial state (variable univ)
+	h := fnv.New64a()
+	fmt.Fprintf(h, "%d/%d/behaviour", a.seed, a.beh)
+	a.bseed = int64(h.Sum64() >> 1)
+	if u, ok := init["univ"]; ok && u.Len() > 0 {
+		rq := request{Op: "Univ", BSeed: a.bseed}
+		for _, d := range u.Elems {
+			bd, err := descOf(d)
+			if err != nil {
+				return nil, err
+			}
+			rq.Blocks = append(rq.Blocks, bd)
+		}
+		b, _ := json.Marshal(rq)
+		if _, err := a.in.Write(append(b, '\n')); err != nil {
+			return nil, err
+		}
+		if m, err := a.read(); err != nil || m["alive"] != true {
+			return nil, fmt.Errorf("node sub-process did not take the block universe: %v %v\n%s", err, m, a.errBuf.buf)
+		}
+	}
 	// the model starts idle: the first connection is opened by a Connect or Dial step
 	return engine.Fields{"seed": a.seed}, nil
+}
+
+// descOf reads a block descriptor <<id, height, parent, kind>> of spec/WireSeq.tla.
+func descOf(v tla.Value) (blockDesc, error) {
+	if v.Len() != 4 {
+		return blockDesc{}, fmt.Errorf("not a block descriptor: %s", v.String())
+	}
+	return blockDesc{ID: v.At(0).S(), H: int64(v.At(1).I()), P: v.At(2).S(), K: v.At(3).S()}, nil
 }
 
 func (a *adapter) read() (map[string]interface{}, error) {
@@ -408,14 +478,34 @@ func (a *adapter) Apply(s engine.Step) (engine.Fields, error) {
 	if a.dead {
 		return engine.Fields{"dead": true}, nil
 	}
-	rq := request{Op: s.Act.Name}
-	if s.Act.Name == "Recv" {
+	rq := request{Op: s.Act.Name, BSeed: a.bseed}
+	switch s.Act.Name {
+	case "Recv":
 		rq.Cls = s.Act.Args[0].S()
-	} else if s.Act.Name != "Connect" && s.Act.Name != "Dial" {
+	case "Connect", "Dial", "Tick":
+	case "SBlocks": // SBlocks(<<d1, d2, ...>>)
+		for _, d := range s.Act.Args[0].Elems {
+			bd, err := descOf(d)
+			if err != nil {
+				return nil, err
+			}
+			rq.Blocks = append(rq.Blocks, bd)
+		}
+	case "SConfirm": // SConfirm(d, signer)
+		bd, err := descOf(s.Act.Args[0])
+		if err != nil {
+			return nil, err
+		}
+		rq.Blocks, rq.Signer = []blockDesc{bd}, s.Act.Args[1].S()
+	default:
 		return nil, fmt.Errorf("unknown action %s", s.Act.Name)
 	}
 	h := fnv.New64a()
-	fmt.Fprintf(h, "%d/%d/%d/%s", a.seed, a.beh, a.step, rq.Cls)
+	if s.Act.Name == "SBlocks" || s.Act.Name == "SConfirm" {
+		fmt.Fprintf(h, "%d/%d/%d/%s", a.seed, a.beh, a.step, s.Act.String())
+	} else {
+		fmt.Fprintf(h, "%d/%d/%d/%s", a.seed, a.beh, a.step, rq.Cls)
+	}
 	rq.Seed = int64(h.Sum64() >> 1)
 	b, _ := json.Marshal(rq)
 	if _, err := a.in.Write(append(b, '\n')); err != nil {
